@@ -20,14 +20,14 @@ from common import *   # noqa
 ID = 'C16'
 NAMESPACE = 'VL.C16'
 LEAN_MODULES = ['VotelibProofs.Props.C16']
-GEN_MODULES = ['Quota', 'Threshold']
+GEN_MODULES = ['Quota', 'Threshold', 'OpenList']
 REQUIRED = ['abs_condition_exact', 'rel_condition_exact', 'abs_threshold_exact', 'abs_threshold_order', 'rel_threshold_exact', 'rel_threshold_exact_pos',
             'share_boundary', 'rel_threshold_zero_total', 'alternative_combine_mem', 'alternative_combine_nodup',
             'alternative_combine_sorted', 'alternative_is_union', 'alternative_error_iff', 'coalition_dispatch',
             'coalition_error_iff', 'property_dispatch',
             'sel_alt_is_union', 'sel_coalition_dispatch',
             'sel_property_dispatch', 'quota_selector_exact', 'quota_selector_overflow_error',
-            'quota_selector_overflow_select', 'mem_jumpers', 'jump_threshold_spec', 'openlist_no_threshold',
+            'quota_selector_overflow_select', 'jump_condition_exact', 'mem_jumpers', 'jump_threshold_spec', 'quota_fraction_scales_quota', 'openlist_no_threshold',
             'openlist_fill', 'openlist_overflow_by_votes', 'openlist_overflow_by_list', 'jumpers_nodup',
             'jumpers_sorted', 'jumpers_sub_keys', 'openlist_length_distinct', 'openlist_order',
             'openlist_no_pass_over', 'openlist_overflow_votes_best', 'openlist_overflow_list_best', 'openlist_overflow_list_order',
@@ -1377,7 +1377,7 @@ UNPROVED = []
 TECHNIQUE = ('Lean 4 proofs (unbounded) about executable models of threshold.py, openlist.py, QuotaSelector and Tie.break_by_list '
              '+ differential correspondence of the models with votelib on constructed boundary inputs + direct oracle')
 LEVEL_TEXT = ('The filter conditions of AbsoluteThreshold / RelativeThreshold are regenerated from the source on every run '
-              '(Gen/Threshold.lean) and proved to be the boundary rule; '
+              '(Gen/Threshold.lean, Gen/OpenList.lean: also the open-list jump condition) and proved to be the boundary rule; '
               'every class of threshold.py and openlist.py, QuotaSelector and Tie.break_by_list are modelled line for line in Lean '
               '(exact rationals).  Proved for all inputs: membership iff for relative/absolute thresholds and quota selectors '
               '(strictly over, or on it when equality is accepted) with the sorted_votes order; alternatives are the union, '
